@@ -304,11 +304,13 @@ def eigen(X, P, NSIG=None, method='music', threshold=None, NFFT=default_NFFT,
 
     # for some reasons, we need to rearrange the output. this is related to
     # the way U and V are order in the routine svd
-    nby2 = int(NFFT/2)
+    nby2 = NFFT // 2
 
     #return PSD, S
 
-    newpsd = np.append(PSD[nby2:0:-1], PSD[nby2*2-1:nby2-1:-1])
+    # centered version (frequencies from -NFFT/2 to NFFT/2 excluded) of the
+    # frequency-reversed PSD: entry j holds PSD[-(j-nby2)]
+    newpsd = PSD[(nby2 - np.arange(NFFT)) % NFFT]
     return newpsd, S
 
 
